@@ -312,6 +312,43 @@ def generalized_limits(U, rep):
             'generalized.jac_limit rows vanish inside the range',
             'limit constraint rows are active although lo < q < hi: residual ' + residual(I, got), where=f.where(),
             construct='(jac, diag, aref) * [min(q-lo, hi-q, 0) < 0]')
+  # the same with a free body listed AFTER (and before) the limited joint: q and qd indices of the limited dofs differ
+  # by one per preceding free joint, wherever the free links are listed
+  for types, parents in (('1f', (-1, -1)), ('f1', (-1, 0)), ('1f1', (-1, -1, 1))):
+    I2 = interp(U)
+    cnt2 = [0]
+    def imp_aref2(params, pos, vel):
+      cnt2[0] += 1
+      return sym('imp%d' % cnt2[0]), sym('aref%d' % cnt2[0])
+    I2.contracts[(GC, '_imp_aref')] = imp_aref2
+    nq2 = sum(7 if t == 'f' else 1 for t in types)
+    nv2 = sum(6 if t == 'f' else 1 for t in types)
+    free_d = [t == 'f' for t in types for _ in range(6 if t == 'f' else 1)]
+    lo2 = np.array([Rat.lift(float('-inf')) if fr else sym('lo%d' % d) for d, fr in enumerate(free_d)], dtype=object)
+    hi2 = np.array([Rat.lift(float('inf')) if fr else sym('hi%d' % d) for d, fr in enumerate(free_d)], dtype=object)
+    q2 = symarr('q', (nq2,))
+    sys2 = symsys.system(types, parents, nv=nv2, nq=nq2, nu=0,
+                         dof=Struct('DoF', {'limit': (lo2, hi2), 'solver_params': symarr('sp', (nv2, 7)),
+                                            'invweight': symarr('diw', (nv2,))}))
+    st2 = Struct('State', {'q': q2, 'qd': symarr('qd', (nv2,))})
+    rows2 = I2.apply(fn(GC, 'jac_limit'), [sys2, st2], {})
+    facts2 = {}
+    qi = di = 0
+    for t in types:
+      if t == 'f':
+        qi += 7
+        di += 6
+      else:
+        facts2[Rat.lift(q2[qi] - lo2[di]).key()] = '+'
+        facts2[Rat.lift(hi2[di] - q2[qi]).key()] = '+'
+        qi += 1
+        di += 1
+    got2 = scenario.subst(rows2, scenario.chain(sign_decide(facts2), _inf_decide()))
+    rep.check(isinstance(got2, tuple) and len(got2) == 3 and is_zero(I2, got2), 'R6.2',
+              'generalized.jac_limit rows vanish inside the range [link types %s]' % types,
+              lambda: 'limit constraint rows are active although every limited coordinate is strictly inside its range (the row reads '
+              'another coordinate): residual ' + residual(I2, got2), where=f.where(),
+              construct='free and limited links in the order %s: q index != qd index for the limited dofs' % types)
   # no-limit short path returns zero rows
   sys0 = symsys.system('11', (-1, 0), nv=nv, nq=nv, nu=0, dof=Struct('DoF', {'limit': None}))
   r0 = I.apply(fn(GC, 'jac_limit'), [sys0, st], {})
